@@ -7,6 +7,7 @@ Conformance of the encodings to FULL LZMA/XZ decoders (`xz_conformance`) is not 
 covered by the tie only (xz tool, Wuffs std/lzma + std/xz on every generated payload).
 -/
 import WuffsVerif.Proof.LzmaXz
+import WuffsVerif.Proof.LzmaBound2
 
 namespace WuffsVerif.Props.C17
 open WuffsVerif.Lzma
@@ -204,5 +205,34 @@ theorem xz_roundtrip (src : List UInt8) (h : src.length < 2 ^ 60) :
 example : decodeXz #[] (encodeXz #[] []).toList = (#[], [], Err.ok) := xz_roundtrip [] (by decide)
 example (b : UInt8) : decodeXz #[] (encodeXz #[] [b]).toList = (#[b], [], Err.ok) :=
   xz_roundtrip [b] (by simp)
+
+/-! ## decode_total_bounded -/
+
+/-- `decode_total_bounded`.  Totality: `decodeLZMA`, `decodeXz` and everything below them are total Lean
+    functions (structural recursion on the claimed size / on fuel that exceeds the input length; no
+    `partial`), so for ARBITRARY bytes they return data-plus-error.  Bound: the output grows by at most
+    42 bytes per input byte — each decoded bit shrinks `width` by a factor ≤ 2018/2048 because probabilities
+    stay in `[31, 2017]`, (2048/2018)^377 > 2^8, so at most 377 bits (< 42 literals of 9 bits) per source
+    byte; the header's claimed size cannot force more.  (DESIGN.md states the weaker `64·|src| + 64`.) -/
+theorem decode_total_bounded (dst : Array UInt8) (src : List UInt8) :
+    (decodeLZMA dst src).1.size ≤ dst.size + 42 * src.length ∧
+    (decodeXz dst src).1.size ≤ dst.size + 42 * src.length :=
+  ⟨decodeLZMA_bound dst src, decodeXz_bound dst src⟩
+
+/-- the same for the raw payload decoder, in its sharper form (it also accounts for what is left over) -/
+theorem decodeRaw_total_bounded (dst : Array UInt8) (src : List UInt8) (size : Nat) (eu : Err) :
+    9 * (decodeRaw dst src size eu).1.size + 378 * (decodeRaw dst src size eu).2.1.length
+      ≤ 9 * dst.size + 378 * src.length :=
+  decodeRaw_bound dst src size eu
+
+/-- one bit costs one unit of the potential `pot width + 378·|src|`, on arbitrary input -/
+theorem decodeBit_potential (p : Nat) (d : RangeDecoder) (b p' : Nat) (d' : RangeDecoder) (hp : ProbOK p)
+    (hw : WOK d) (hd : decodeBit p d = some (b, p', d')) : WOK d' ∧ Psi d' + 1 ≤ Psi d :=
+  decodeBit_pot p d b p' d' hp hw hd
+
+/-- non-vacuity: the hypotheses hold for the decoder's initial state on any input -/
+example (rest : List UInt8) (bits : Nat) : WOK ⟨rest, bits, 0xFFFFFFFF⟩ ∧ ProbOK probHalf :=
+  ⟨⟨by show (16777216 : Nat) ≤ 4294967295; omega, by show (4294967295 : Nat) < 4294967296; omega⟩,
+    probHalf_ok⟩
 
 end WuffsVerif.Props.C17
